@@ -12,7 +12,7 @@ From Coq Require Import NArith ZArith List Bool.
 From ST Require Import Base.Outcome Base.Units Gen.Tables Codec.Spec Codec.Model.
 From ST Require Codec.ProofsTables Codec.ProofsSpec Codec.ProofsEnc Codec.ProofsC14 Codec.ProofsExamples.
 From ST Require Codec.LeafBridge Gen.Leaf.
-From ST Require Codec.LoopBridge.
+From ST Require Codec.LoopBridge Codec.SourceFit.
 Import ListNotations.
 Local Open Scope N_scope.
 
@@ -205,3 +205,14 @@ Theorem b64_encode_assert_unreachable : forall l fuel ws, all_lt 256 l = true ->
   ~ In ST.Gen.Leaf.ext_abort_unit ws.
 Proof. exact ST.Codec.LoopBridge.b64_encode_never_aborts. Qed.
 Print Assumptions b64_encode_assert_unreachable.
+
+(* ---- the two translated functions fit each other and the standard: what b64_encode of the current headers stores is the
+   RFC 4648 encoding, and its length is what b64_encode_size of the current headers returns (the size base64_encode
+   allocates): the result buffer is filled exactly ---- *)
+Theorem b64_encode_source_fits_its_size : forall l fuel, bytes_ok l = true -> (length l < fuel)%nat ->
+  (Z.of_nat (length l) < 2 ^ 62)%Z ->
+  exists ws, ST.Gen.Leaf.src_b64_encode fuel (ST.Codec.LoopBridge.arrb l) (Z.of_nat (length l)) = Some ws /\
+             map Z.to_N ws = b64_spec l /\
+             Z.of_nat (length ws) = ST.Gen.Leaf.src_b64_encode_size (Z.of_nat (length l)).
+Proof. exact ST.Codec.SourceFit.b64_encode_source_is_rfc. Qed.
+Print Assumptions b64_encode_source_fits_its_size.
